@@ -358,10 +358,11 @@ class ReadModifyWriteRequestPacket(SendUnitDataRequestPacket):
         self._request_ids = []
         self._and_mask = 0xFFFF_FFFF_FFFF_FFFF
         self._or_mask = 0x0000_0000_0000_0000
-        self._mask_size = DataTypes.get(self.data_type).size
+        _type = DataTypes.get(self.data_type)
+        self._mask_size = getattr(_type, "size", None)
 
-        if self._mask_size is None:
-            raise RequestError(f'Invalid data type {tag_info["data_type"]} for writing bits')
+        if not self._mask_size:
+            raise RequestError(f"Invalid data type {self.data_type!r} for writing bits")
 
         if self.request_path is None:
             self.error = "Failed to create request path for tag"
@@ -369,6 +370,9 @@ class ReadModifyWriteRequestPacket(SendUnitDataRequestPacket):
     def set_bit(self, bit: int, value: bool, request_id: int):
         if self.data_type == "DWORD":
             bit %= 32
+
+        if not 0 <= bit < self._mask_size * 8:
+            raise RequestError(f"Invalid bit number {bit} for data type {self.data_type!r}")
 
         if value:
             self._or_mask |= 1 << bit
